@@ -318,13 +318,17 @@ func (r *Resolver) Resolve(ctx context.Context, name string) (ResolveResult, err
 		}
 		return result, nil
 	}
-	if len(name) > 255 {
+	if len(strings.TrimSuffix(name, ".")) > 253 {
 		return result, ErrInvalidName
 	}
 	for _, p := range strings.Split(name, ".") {
 		if len(p) > 63 {
 			return result, ErrInvalidName
 		}
+	}
+	if n := strings.TrimSuffix(name, "."); n != "" && (strings.HasPrefix(n, ".") || strings.HasSuffix(n, ".") || strings.Contains(n, "..")) {
+		// empty labels cannot be encoded
+		return result, ErrInvalidName
 	}
 
 	if r.insecureUseGoResolver {
@@ -349,6 +353,15 @@ func (r *Resolver) Resolve(ctx context.Context, name string) (ResolveResult, err
 		svcbName = fmt.Sprintf("_%d._%s.%s", result.Port, scheme, name)
 	} else if scheme != "https" {
 		svcbName = fmt.Sprintf("_%s.%s", scheme, name)
+	}
+	// The port and scheme labels must fit in a DNS name too.
+	if len(strings.TrimSuffix(svcbName, ".")) > 253 {
+		return result, ErrInvalidName
+	}
+	for _, p := range strings.Split(svcbName, ".") {
+		if len(p) > 63 {
+			return result, ErrInvalidName
+		}
 	}
 
 	// First, resolve HTTPS Aliases.
